@@ -95,6 +95,26 @@ def lean_run(driver: str, input_text: str, timeout=1800) -> list[str]:
     return out.splitlines()
 
 
+def module_closure(mods: list[str]) -> list[str]:
+    """the project modules (Pybes3Verif.*) reachable from `mods` through imports, dependencies first"""
+    seen, order = set(), []
+    def visit(m):
+        if m in seen:
+            return
+        seen.add(m)
+        f = LEAN / (m.replace(".", "/") + ".lean")
+        if not f.exists():
+            return
+        for line in strip_lean_comments(f.read_text()).splitlines():
+            mm = re.match(r"\s*(?:public\s+)?import\s+(Pybes3Verif\.\S+)", line)
+            if mm:
+                visit(mm.group(1))
+        order.append(m)
+    for m in mods:
+        visit(m)
+    return order
+
+
 class DriverError(Exception):
     pass
 
@@ -240,6 +260,23 @@ class Check:
             self.obligation_broken("theorem", "axiom audit", "\n".join(a["problems"]))
             return False
         self.log(f"proved: {len(a['names'])} theorems, axioms {axs}")
+        if self.tier == "thorough" and os.environ.get("VERIF_NO_LEANCHECKER") != "1":
+            mods = module_closure([t for t in tgt if t.startswith("Pybes3Verif.")])
+            # one invocation per module (each replays that module's declarations on top of its imports): a single invocation
+            # over all modules keeps everything resident (34 GB for the C08 closure)
+            from concurrent.futures import ThreadPoolExecutor
+            def one(m):
+                rc, out, err = run_cmd(["lake", "env", "leanchecker", m], cwd=LEAN, timeout=7200)
+                return m, rc, (out + err)[-1500:]
+            with ThreadPoolExecutor(max_workers=3) as ex:
+                results = list(ex.map(one, mods))
+            bad = [(m, rc, o) for m, rc, o in results if rc != 0]
+            self.coverage["leanchecker"] = {"modules_rechecked": len(mods), "failed": [m for m, _, _ in bad]}
+            if bad:
+                self.obligation_broken("theorem", f"leanchecker (independent kernel re-check of {len(mods)} compiled modules)", "\n".join(f"{m}: rc={rc} {o}" for m, rc, o in bad)[-3000:])
+                return False
+            self.coverage["trusted_base"] += [f"leanchecker re-checked the {len(mods)} compiled modules the theorems depend on"]
+            self.log(f"leanchecker: {len(mods)} modules re-checked")
         return True
 
     # ---- verdict --------------------------------------------------------------------------
